@@ -59,7 +59,7 @@ var ttlItems = []string{"a", "b", "c", "d", "e"}
 
 func genTTL(r *Rng, tier string, p *Plan) {
 	p.N["map"] = int64(r.Intn(2))
-	ttl := PickOf(r, int64(1), 1000, 3000, 50_000, 3_000_000) // µs
+	ttl := PickOf(r, int64(1), 1000, 3000, 50_000, 3_000_000, 1000, 3000, 50_000, 0) // µs (0: an entry lives for the instant it was added in)
 	p.N["ttl_us"] = ttl
 	n := r.Range(3, 14)
 	if tier == "thorough" {
@@ -71,6 +71,29 @@ func genTTL(r *Rng, tier string, p *Plan) {
 		// many entries that expire together: more than any batch size a clean-up
 		// pass might have
 		p.Add(Op{K: "burst", N: int64(PickOf(r, 100, 1025, 1500, 3000)), At: now})
+	}
+	if ttl >= 1000 && r.Bool(0.2) {
+		// staggered expiries: several items added a fraction of the TTL apart, then
+		// the clock goes from one expiry to the next, every query asked at each stop
+		k := r.Range(3, min(5, len(ttlItems)))
+		gap := ttl / int64(k+2)
+		first := now
+		for i := 0; i < k; i++ {
+			it := ttlItems[(i+int(ttl))%len(ttlItems)]
+			p.Add(Op{K: "add", S: it, At: now})
+			exp[it] = now + ttl
+			if i < k-1 {
+				p.Add(Op{K: "adv", N: gap, At: now})
+				now += gap
+			}
+		}
+		for i := 0; i < k; i++ {
+			to := first + int64(i)*gap + ttl + PickOf(r, int64(1), 1, 0, gap/2)
+			if to > now {
+				p.Add(Op{K: "adv", N: to - now, At: now})
+				now = to
+			}
+		}
 	}
 	for i := 0; i < n; i++ {
 		switch r.Intn(10) {
